@@ -558,7 +558,8 @@ def _weight_menu(E):
 
 
 def _libw(w):
-    return {e: (float(x) if isinstance(x, Fraction) else x) for e, x in enumerate(w)}
+    # inserted in decreasing edge order: the insertion order of a dict of weights must not matter
+    return {e: (float(w[e]) if isinstance(w[e], Fraction) else w[e]) for e in reversed(range(len(w)))}
 
 
 def _check_mesh(spec, xmax, tier, fam, rep: Report):
